@@ -346,6 +346,47 @@ theorem partition_by_unit (m : Mode) (units : List UnitHdr) (offs : List Off)
   refine ⟨h, ?_, fun o u => List.mem_filter⟩
   simp [reserve, h]
 
+/-! ## the whole pipeline never panics -/
+
+/-- a section as the raw reader can deliver it: distinct DIE offsets, units in ascending
+non-overlapping order, every DIE inside the bounds of its unit -/
+structure WellFormed (units : List (UnitHdr × List Entry)) : Prop where
+  distinct : Distinct units
+  ascending : (units.map (·.1)).Pairwise (fun u v => u.endOff ≤ v.base)
+  inside : ∀ ue, ue ∈ units → ∀ e, e ∈ ue.2 → ue.1.inBounds e.off = true
+
+/-- **`pipeline_total`** — on every well-formed section, for every required set and in both build
+modes, the filter pass returns a graph (`add_edge`'s `unwrap` and `add_entry`'s `debug_assert!`
+never fire), `get_reachable` returns exactly the closure, `new_with_filter` reserves exactly the
+closure offsets of each unit with nothing left over (`debug_assert_eq!(end, offsets.len())` holds),
+and the outcome of the Model's `run` is the conversion of exactly those entries: `converted` or a
+`ConvertError` from `convert_unit_ref`/`convert_debug_info_ref`, never a panic or fuel exhaustion. -/
+theorem pipeline_total (m : Mode) (units : List (UnitHdr × List Entry)) (ras : List (List AttrRef))
+    (wf : WellFormed units) :
+    ∃ d out, buildDeps m units = .ok d ∧ getReachable d = .ok out ∧
+      (∀ x, x ∈ out ↔ Closure (records units) x) ∧
+      reserve m (units.map (·.1)) out = .ok ((units.map (·.1)).map (fun u => out.filter u.containsOff)) ∧
+      run m units ras =
+        (match convertUnits (units.map (·.1.rootOff) ++
+            ((units.map (·.1)).map (fun u => out.filter u.containsOff)).flatten) units ras with
+         | .ok us => .converted ((units.map (·.1)).map (fun u => out.filter u.containsOff)) us
+         | .error e => .convErr e) := by
+  obtain ⟨d, hb⟩ := buildDeps_total m units wf.distinct
+  obtain ⟨⟨out, hr⟩, _⟩ := worklist_terminates d
+  have hE := closure_exact m units d out hb hr wf.distinct
+  have hcover : ∀ o, o ∈ out → ∃ u, u ∈ units.map (·.1) ∧ u.containsOff o = true := by
+    intro o ho
+    obtain ⟨r, hrec, hoff⟩ := ((hE o).1 ho).valid'
+    obtain ⟨ue, hue, hu, he⟩ := records_mem units r hrec
+    refine ⟨ue.1, List.mem_map_of_mem hue, ?_⟩
+    rw [← hoff, Rec.off, hu]
+    exact containsOff_entry ue.1 r.e.off (wf.inside ue hue r.e he)
+  obtain ⟨_, hres, _⟩ := partition_by_unit m (units.map (·.1)) out
+    (reachable_nodup_sorted d out hr).2.1 wf.ascending hcover
+  refine ⟨d, out, hb, hr, hE, hres, ?_⟩
+  simp only [run, hb, hr, hres]
+  cases convertUnits _ units ras <;> rfl
+
 /-! ## the tag tables regenerated from the Rust source -/
 
 /-- the extractor understood `has_die_back_edge` and the `read_entry` condition -/
@@ -457,6 +498,7 @@ example : run .debug exForest =
     .converted [[15, 23, 31], [65]] [[(15, some 11), (23, some 15), (31, some 23)], [(65, some 61)]] := by
   decide
 example : (buildDeps .release exForest).isOk = true := by decide
+example : WellFormed exForest := ⟨by unfold Distinct; decide, by decide, by decide⟩
 /-- `attrRecorded` holds of ordinary attributes … -/
 example : attrRecorded (.loclist [(true, [.unitRef 23, .infoRef 65])]) = true := by decide
 /-- … and `partition_by_unit`'s hypotheses hold for the example's units and result -/
@@ -475,7 +517,7 @@ def exImplicitPointer : List (UnitHdr × List Entry) :=
 
 theorem implicit_pointer_counterexample :
     run .debug exImplicitPointer = .convErr .invalidDebugInfoRef ∧
-    (convertUnits (allIds exImplicitPointer) exImplicitPointer).toBool = true := by decide
+    (convertUnits (allIds exImplicitPointer) exImplicitPointer []).toBool = true := by decide
 
 /-- recorded finding C19-2: the same with a `DW_OP_call4` inside a location-list entry whose range
 is inverted (`begin > end`): `LocListIter` skips the entry, `LocationList::from` converts it -/
@@ -486,6 +528,18 @@ def exSkippedLoc : List (UnitHdr × List Entry) :=
 
 theorem skipped_loc_counterexample :
     run .debug exSkippedLoc = .convErr .invalidUnitRef ∧
-    (convertUnits (allIds exSkippedLoc) exSkippedLoc).toBool = true := by decide
+    (convertUnits (allIds exSkippedLoc) exSkippedLoc []).toBool = true := by decide
+
+/-- recorded finding C19-3: the unit root DIE (always converted) references the DIE `15`, which
+nothing else keeps: `FilterUnit::new` skips the root's attributes, so no edge is recorded, and the
+conversion of the root fails although the unfiltered conversion succeeds -/
+def exRootRef : List (UnitHdr × List Entry) :=
+  [ (⟨0, 11, 20⟩,
+      [ ⟨15, 1, false, 0x24, false, [], false⟩,
+        ⟨23, 1, false, 0x34, false, [], true⟩ ]) ]
+
+theorem root_ref_counterexample :
+    run .debug exRootRef [[.unitRef 15]] = .convErr .invalidUnitRef ∧
+    (convertUnits (allIds exRootRef) exRootRef [[.unitRef 15]]).toBool = true := by decide
 
 end Gimli.Props.C19
